@@ -268,9 +268,21 @@ def run(ctx):
     ctx.ob("R2.coordinate-width", CTAB, "_write_structure_to_ctab_v2000",
            f"guard digits <= {K}, format {cspec['width']}.{cspec['prec']}f, float32 -> max width {mw}",
            mw <= cspec["width"], f"coordinates passing the guard can need {mw} characters: {wit}", wr.lineno)
-    loop_axes = [st for st in stmts(wr) if isinstance(st, ast.For) and "coord_name" in ast.unparse(st.target)]
-    ctx.ob("R2.coordinate-axes", CTAB, "_write_structure_to_ctab_v2000", "x, y, z all guarded",
-           bool(loop_axes) and len(const_eval(loop_axes[0].iter.args[0])) == 3 and "atoms.coord[:, i]" in ast.unparse(loop_axes[0]),
+    # the loop whose body measures the digits: it enumerates three axes and measures column <index> of the coordinates
+    axes_ok = False
+    for st in stmts(wr):
+        if isinstance(st, ast.For) and any(isinstance(c, ast.Call) and call_name(c) == "number_of_integer_digits" for c in ast.walk(st)):
+            it = st.iter
+            if isinstance(it, ast.Call) and call_name(it) == "enumerate" and it.args and isinstance(it.args[0], (ast.List, ast.Tuple)) \
+                    and len(it.args[0].elts) == 3 and isinstance(st.target, ast.Tuple) and isinstance(st.target.elts[0], ast.Name):
+                idx = st.target.elts[0].id
+                axes_ok = any(isinstance(c, ast.Call) and call_name(c) == "number_of_integer_digits" and len(c.args) == 1
+                              and same_expr(c.args[0], f"atoms.coord[:, {idx}]") for c in ast.walk(st))
+            elif isinstance(it, ast.Call) and call_name(it) == "range" and len(it.args) == 1 and isinstance(it.args[0], ast.Constant) \
+                    and it.args[0].value == 3 and isinstance(st.target, ast.Name):
+                axes_ok = any(isinstance(c, ast.Call) and call_name(c) == "number_of_integer_digits" and len(c.args) == 1
+                              and same_expr(c.args[0], f"atoms.coord[:, {st.target.id}]") for c in ast.walk(st))
+    ctx.ob("R2.coordinate-axes", CTAB, "_write_structure_to_ctab_v2000", "x, y, z all guarded", axes_ok,
            "the digit guard must cover all three axes", wr.lineno)
     # element width
     el = [k for o, w, k in atom_fields if k[0] == "val" and "element" in k[1]][0]
